@@ -87,7 +87,7 @@ def main():
                 v = "caught by another property's check (the change breaks that property, not the one it was written for)"
             verd[v] = verd.get(v, 0) + 1
         S.append("### 13.3 Seeded changes vs. checks\n")
-        S.append("%d property-breaking changes were written by independent sub-agents (two rounds; each saw only the" % n)
+        S.append("%d property-breaking changes were written by independent sub-agents (six rounds; each saw only the" % n)
         S.append("property text and a scratch worktree, nothing from /verif), confirmed by a further sub-agent (suite passes")
         S.append("with the change, demonstration fails with it and passes without), filed under `seeded/<ID>-k/` and run")
         S.append("through the property's check on a patched scratch copy (`python3 -m tools.seedrun`). Final verdicts: %s." %
